@@ -75,6 +75,8 @@ use super::{Config, Dependencies};
 
 #[cfg(uutils_findutils_verif)]
 pub use self::glob::verif as glob_verif;
+#[cfg(uutils_findutils_verif)]
+pub use self::regex::verif as regex_verif;
 
 pub use entry::{FileType, WalkEntry, WalkError};
 pub use regex::RegexType;
